@@ -151,10 +151,10 @@ func CheckDescriptor(desc ociregistry.Descriptor, data []byte) error {
 	}
 	if data != nil {
 		if digest.FromBytes(data) != desc.Digest {
-			return fmt.Errorf("digest mismatch")
+			return fmt.Errorf("digest mismatch: %w", ociregistry.ErrDigestInvalid)
 		}
 		if desc.Size != int64(len(data)) {
-			return fmt.Errorf("size mismatch")
+			return fmt.Errorf("size mismatch: %w", ociregistry.ErrSizeInvalid)
 		}
 	} else {
 		if desc.Size == 0 && desc.Digest != emptyHash {
